@@ -45,6 +45,7 @@ type scResult struct {
 	Sample       interface{}    `json:"sample,omitempty"`
 	Evals        int            `json:"evals"`
 	Attempts     int            `json:"attempts"`
+	honestFail   []viol         // honest session ended with an error: a violation only if it does so in every attempt
 }
 
 func (res *scResult) count(name string, n int) { res.Counters[name] += n }
@@ -186,7 +187,18 @@ func (r *rig) evalSession(res *scResult, s *session, o *outcome, mustSucceed boo
 	sc := r.sc
 	V := func(mon, what string) {
 		key := fmt.Sprintf("C17/%s/%s%s", mon, sc.Class, tag)
-		res.Viols = append(res.Viols, viol{Key: key, Desc: r.describeSession(s, o, what), Case: sc})
+		for _, sus := range suspectClasses {
+			if sc.Class == sus { // one key per suspect class, whatever monitor fires (it depends on timing)
+				key = "C17/finding/" + sc.Class
+				what = mon + ": " + what
+			}
+		}
+		v := viol{Key: key, Desc: r.describeSession(s, o, what), Case: sc}
+		if mon == "honest-session-failed" {
+			res.honestFail = append(res.honestFail, v)
+			return
+		}
+		res.Viols = append(res.Viols, v)
 	}
 	r.mu.Lock()
 	defer r.mu.Unlock()
@@ -308,11 +320,12 @@ func (r *rig) evalSession(res *scResult, s *session, o *outcome, mustSucceed boo
 		}
 	}
 	if mustSucceed && o.err != nil {
-		if s.maxLag > disturbLimit || o.disturbed {
-			o.disturbed = true
-		} else {
-			V("honest-session-failed", "all peers answered truthfully and in time, nobody asked to stop, yet the session ended with error "+errStr(o.err))
-		}
+		// The statement allows "stops and reports an error"; an honest session that fails once may be a
+		// scheduling accident (e.g. a reply overtaking the finder's select).  It is retried and reported
+		// only when it fails in every attempt.
+		o.disturbed = true
+		res.count("honest session ended with error (retried)", 1)
+		V("honest-session-failed", fmt.Sprintf("all peers answered truthfully and in time, nobody asked to stop, yet the session ended with error %s in each of 3 attempts (max reply lag %v)", errStr(o.err), s.maxLag))
 	}
 }
 
@@ -340,7 +353,7 @@ func runScenario(sc *Scenario) *scResult {
 		}
 		time.Sleep(200 * time.Millisecond)
 	}
-	res.Inconclusive = append(res.Inconclusive, fmt.Sprintf("scenario %d (%s): honest session failed while reply timing was disturbed in 3 attempts", sc.ID, sc.Class))
+	res.Viols = append(res.Viols, res.honestFail...)
 	return res
 }
 
@@ -375,6 +388,12 @@ func runScenarioOnce(sc *Scenario) (*scResult, bool) {
 	}
 	if !sc.Restart {
 		return res, false
+	}
+	// Replies of the first session that are still on their way (late / slow ones) are let through first:
+	// AddBlockRsp carries no sequence number, and a late one reaching the next session is outside the
+	// statement (class stale-addrsp demonstrates what it does).
+	for i := 0; i < 200 && atomic.LoadInt64(&r.pending) > 0; i++ {
+		time.Sleep(10 * time.Millisecond)
 	}
 	// (5a) previous-sequence messages while idle change nothing
 	if sc.Stale && sA.seq != 0 {
